@@ -75,7 +75,26 @@ theorem roundtrip_ConfigObjConfig_environment_partial (fmt : Fmt) (fs : List (St
   refine ⟨t, ?_, by rw [decode_ConfigObjConfig]; exact hd⟩
   rw [encode_ConfigObjConfig, if_neg he]; exact hen
 
-/-! ## instances of the generic theorem, per type descriptor: the types the "spelled twice" inputs are decoded into -/
+/-! ## the generic theorem per type descriptor -/
+
+/-- **per type descriptor, all at once**: every one of the 55 covered model types of the current source (the list is
+re-decided over the regenerated descriptors by `plain_model_types_all_leaves`, and `covered_uncovered_partition` shows
+that it and the 12 uncovered types are all model types) round-trips in both renderings, for every stable value -/
+theorem roundtrip_every_covered_type (n : String) (hn : n ∈ coveredModelTypes) (fmt : Fmt) (v : Val)
+    (hs : GenericF.Stable genEnv fmt allLeaves 14 (.named n) v) :
+    ∃ t, encode genEnv fmt 14 (.named n) v = .ok t ∧ decode genEnv 14 (.named n) t = .ok v := by
+  have h := plain_model_types_all_leaves
+  rw [List.all_eq_true] at h
+  have hn' := h n hn
+  simp only [Bool.and_eq_true] at hn'
+  have hnames : allLeaves.names = allLeafNames := by decide
+  have hp : GenericF.plainB genEnv fmt allLeaves.names 14 (.named n) = true := by
+    rw [hnames]; cases fmt
+    · exact hn'.1
+    · exact hn'.2
+  exact generic_roundtrip_all_leaves genEnv leafEnv_gen fmt 14 _ v hp hs
+
+/-! ## named instances: the types the "spelled twice" inputs are decoded into -/
 
 theorem roundtrip_ServicePortConfig (fmt : Fmt) (v : Val) (hs : GenericF.Stable genEnv fmt allLeaves 14 (.named "ServicePortConfig") v) :
     ∃ t, encode genEnv fmt 14 (.named "ServicePortConfig") v = .ok t ∧ decode genEnv 14 (.named "ServicePortConfig") t = .ok v :=
